@@ -32,10 +32,12 @@ Proof. exact py_arity_is_model_arity. Qed.
 
 (** ITE, for every manager state satisfying the invariant (whatever history
     produced it: warm cache, reused node numbers, any order), every triple of
-    references, unbounded sizes.  Dynamic reordering disabled here; C09 lifts
-    it.  Operands and every other reference keep their meaning. *)
+    references, unbounded sizes.  Dynamic reordering disabled here (C09 lifts
+    it) and no bound on the number of nodes ([max_nodes s = None], Python's
+    default [sys.maxsize]).  Operands and every other reference keep their meaning. *)
 Theorem C01_ite_correct s g u v r s' :
   Inv s → valid s g → valid s u → valid s v → last_len s = None →
+  max_nodes s = None →
   ite g u v s = (r, s') →
   ∃ w, r = Ok w ∧ Inv s' ∧ extends s s' ∧ valid s' w ∧
     (∀ x ρ, valid s x → denv s' x ρ = denv s x ρ) ∧
@@ -43,8 +45,9 @@ Theorem C01_ite_correct s g u v r s' :
 Proof. exact (ite_correct_lemma s g u v r s'). Qed.
 
 (** The same with the reordering signal allowed (nested call or reordering
-    enabled): the only exception is the reordering request, and the manager
-    is intact when it propagates. *)
+    enabled) and a bound on the number of nodes allowed: the only exceptions
+    are the reordering request and the full table ([RuntimeError], only when a
+    bound is set), and the manager is intact when they propagate. *)
 Theorem C01_ite_correct_signal s g u v r s' :
   Inv s → valid s g → valid s u → valid s v → no_reorder s →
   ite g u v s = (r, s') →
@@ -52,13 +55,14 @@ Theorem C01_ite_correct_signal s g u v r s' :
   match r with
   | Ok w => valid s' w ∧ minlvl3 s g u v ≤ lvl_of s' w ∧
             ∀ a, D s' w a = if D s g a then D s u a else D s v a
-  | Err e => e = ENeedsReordering ∧ is_Some (last_len s)
+  | Err e => (e = ENeedsReordering ∧ is_Some (last_len s)) ∨
+             (e = ERuntime ∧ is_Some (max_nodes s))
   end.
 Proof. exact (ite_spec s g u v r s'). Qed.
 
 (** [apply] for every propositional symbol and alias of the vocabulary. *)
 Theorem C01_apply_correct s op u v w r s' f :
-  Inv s → last_len s = None →
+  Inv s → last_len s = None → max_nodes s = None →
   op ∈ py_vocab → conn_sem op = Some f →
   valid s u → ovalid s v → ovalid s w → arity_ok op v w = true →
   apply op u v w s = (r, s') →
@@ -76,6 +80,6 @@ Example C01_nonvacuous :
               OApply "and" 2 (Some 3%Z) None; OApply "\/" 5 (Some 4%Z) None]
              world_empty in
   let s := world_get w 0 in
-  mem 7 s = true ∧ last_len s = None ∧
+  mem 7 s = true ∧ last_len s = None ∧ max_nodes s = None ∧
   snd (step w 0 (OApply "=>" 7 (Some (-5)%Z) None)) = Ok (VZ (-5)).
 Proof. by vm_compute. Qed.
